@@ -690,5 +690,7 @@ package io
 //@   nopanic
 //@   requires enc != nil && 0 <= n && n <= len(slice)
 //@   modifies enc.refer.last, enc.buf
+//@   loop 1 invariant 0 <= i && i <= n && count == nn_count(elems(slice), off(slice), i) && count >= 0
+//@   loop 2 invariant 0 <= i && i <= n && enc.refer.last == old(enc.refer.last) + ite(enc.simple, 0, nn_count(elems(slice), off(slice), n)) && enc.simple == old(enc.simple)
 //@   ensures [one_number_per_non_nil_element] !enc.simple ==> enc.refer.last == old(enc.refer.last) + nn_count(elems(slice), off(slice), n)
 //@   ensures [simple_mode_numbers_nothing] enc.simple ==> enc.refer.last == old(enc.refer.last)
